@@ -140,6 +140,15 @@ Definition C03_core_justified_statement : Prop :=
               forall v, Spec p (inputs_after (firstn (S j) ops)) d v ->
                         ~ Spec p (inputs_after (firstn (S i) ops)) d v.
 
+Definition C03_core_justified_statement_unguarded : Prop :=
+  forall fuel p ops i j m, wf_core p ->
+    let rs := crun_history_f fuel p cinit ops in
+    executed_at rs i m -> (j < i)%nat -> executed_at rs j m ->
+    (forall k, (j < k < i)%nat -> ~ executed_at rs k m) ->
+    exists d, Reads p (inputs_after (firstn (S j) ops)) m d /\
+              forall v, Spec p (inputs_after (firstn (S j) ops)) d v ->
+                        ~ Spec p (inputs_after (firstn (S i) ops)) d v.
+
 (** at most once between two input sessions, and at most once within one request *)
 Definition no_session_between (ops : list op) (j i : nat) : Prop :=
   forall k sets b, (j <= k <= i)%nat -> nth_error ops k <> Some (OSession sets b).
